@@ -395,6 +395,19 @@ func c16(e *Env) {
 					}
 					w.EmitEvent(&message.TopologyChangeEvent{ChangeType: primitive.TopologyChangeTypeRemovedNode, Address: &primitive.Inet{Addr: n.IP, Port: 9042}})
 					w.Stat("fault.node-remove")
+					if len(w.Nodes) < 6 && c.Choose("node-replaced", 4) == 3 {
+						// the node comes back under another address with the identity (host id) it had:
+						// a replaced machine, a pod rescheduled - at once or after the refresh for its removal
+						if c.Choose("replaced-later", 2) == 1 {
+							w.RunUntil(func() bool { return false }, refreshWindow+time.Duration(1+c.Choose("replaced-after", 20))*time.Second)
+						}
+						r := w.AddNode(true)
+						r.Joined = true
+						r.HostID = n.HostID
+						addedAt[r] = w.Now()
+						w.EmitEvent(&message.TopologyChangeEvent{ChangeType: primitive.TopologyChangeTypeNewNode, Address: &primitive.Inet{Addr: r.IP, Port: 9042}})
+						e.Res.Stats["probe.c16.node_replaced_under_new_address"]++
+					}
 				}
 			case 2:
 				n := w.Nodes[c.Choose("restartwho", len(w.Nodes))]
@@ -427,6 +440,11 @@ func c16(e *Env) {
 		}
 		if w.Stopped() {
 			return
+		}
+		// faults stop here: a failure of system.peers that was armed but has not fired yet would be
+		// a fault of the future (each costs the proxy a reconnect delay of its own)
+		for _, n := range w.Nodes {
+			n.FailPeersQueries = 0
 		}
 		if c.Choose("noisy-window", 3) == 2 {
 			// the window is not quiet: a node keeps flapping (status events every few seconds, closer
